@@ -354,6 +354,9 @@ func Expect(s *ref.Schema, d ref.Datum, dst reflect.Value) error {
 		}
 		return Expect(br, d.L[0], dst)
 	}
+	if s.Type == "null" {
+		return nil // nothing is stored
+	}
 	if t.Kind() == reflect.Ptr {
 		if dst.IsNil() {
 			dst.Set(reflect.New(t.Elem()))
